@@ -8,94 +8,106 @@ import MgpuProofs.C10DistBytes
 A physical page is *in circulation* when it is on a device free list (`s.pool.frees`) or mapped by a
 page-table entry (`livePages s`); `lostPages all s` are the pages of `all` that are neither.
 
-What the code does: Allocate moves pages free → mapped; Free/RemovePage move the page of the entry they
-unmap mapped → free (for any number of processes); CreateUnifiedGPU registers a device without pages.
-But Remap / Distribute / AllocatePageWithGivenVAddr / preparePageForMigration take a **fresh** page for
-a virtual page and overwrite its page-table entry in place (`pageTable.Update`): the page it was mapped
-to before is neither returned to a free list nor remembered anywhere. `runR` counts these virtual pages
-(`rehomed`). So
+What the code does (after the repair of the Remap leak): Allocate moves pages free → mapped; Free/RemovePage
+move the page of the entry they unmap mapped → free (for any number of processes); CreateUnifiedGPU registers a
+device without pages. Remap / Distribute take a **fresh** page for a virtual page, overwrite its page-table
+entry in place (`pageTable.Update`) and give the page it was mapped to **back** to the free list of its device
+(`releaseReplaced`) — when the allocator's record of the virtual address (keyed by the virtual address only)
+belongs to the calling process. AllocatePageWithGivenVAddr / preparePageForMigration deliberately keep the page
+they replace (the page migration controller still reads it). The ghost field `State.leaked` (no effect on `step`)
+counts the pages that were replaced and not given back. So
 
-* `|free| + |mapped| + (pages re-homed so far) = |all|` after **every** history (`conservation_run`),
-* free ∪ mapped is a partition of all pages exactly for the histories without re-homing operations
-  (`conservation_exact`), and the unrestricted partition statement is false (`conservation_full_refuted`),
-* a lost page never comes back (`lost_monotone`, `lost_monotone_run`): the capacity of the device shrinks
-  for good (`remap_leak_oom_witness`: out of memory with one page mapped on a two-page GPU).
+* `|free| + |mapped| + leaked = |all|` after **every** history, and exactly `leaked` pages are lost
+  (`conservation_run`),
+* free ∪ mapped is a partition of all pages after every history **of a single process** that does not use
+  migration / AllocatePageWithGivenVAddr — Remap and Distribute included (`conservation_full_holds`), and after
+  every history of any number of processes without operations that overwrite an entry (`conservation_exact`);
+  both hypotheses are necessary (`conservation_needs_single_process`,
+  `conservation_migration_keeps_replaced_page`),
+* the code before the repair lost one page per remapped page (`conservation_full_before_fix_refuted`,
+  `remap_leak_oom_before_fix_witness`); the repaired code remaps the same page any number of times
+  (`remap_twice_ok`),
+* a lost page never comes back (`lost_monotone`, `lost_monotone_run`).
 -/
 namespace C10
-
-/-! ## the ghost counter does not change the run -/
-
-/-- `runR` is `run` with a ghost counter: it succeeds exactly when `run` does, with the same final state. -/
-theorem runR_agrees_run (s : State) (k : Nat) (ops : List Op) (s' : State) :
-    (∃ k', runR s k ops = .ok (s', k')) ↔ run s ops = .ok s' :=
-  ⟨fun ⟨_, h⟩ => runR_run ops s k s' _ h, run_runR ops s k s'⟩
-
-example : ∃ s' k', runR (initState 4096 16384 [32768, 32768]) 0 exampleOps = .ok (s', k') ∧
-    run (initState 4096 16384 [32768, 32768]) exampleOps = .ok s' :=
-  ⟨_, _, rfl, rfl⟩
 
 /-! ## one step -/
 
 /-- One successful driver operation, from a state that satisfies the run invariant `WInv` (any number of
 processes): (a) every page that is free or mapped afterwards was free or mapped before — no operation
 conjures a physical page; (b) the number of free pages plus the number of mapped pages drops by exactly
-the number of virtual pages the operation re-homed (`rehomed`: 0 for Init / SelectGPU / CreateUnifiedGPU /
-Allocate / AllocateUnified / Free / RemovePage / removeFreedBuffers). -/
+the growth of the ghost field `leaked`; (c) `leaked` never decreases; (d) it does not move at all for
+Init / SelectGPU / CreateUnifiedGPU / Allocate / AllocateUnified / Free / RemovePage / removeFreedBuffers, and
+grows by exactly one for preparePageForMigration / AllocatePageWithGivenVAddr. -/
 theorem conservation_step {s s' : State} {op : Op} {r : Res} (hW : WInv s) (h : step s op = .ok (r, s')) :
     (∀ p, p ∈ s'.pool.frees.flatten ∨ p ∈ livePages s' → p ∈ s.pool.frees.flatten ∨ p ∈ livePages s) ∧
-    s'.pool.frees.flatten.length + s'.pt.length + rehomed s op = s.pool.frees.flatten.length + s.pt.length :=
-  ⟨step_sub hW h, step_count hW h⟩
+    s'.pool.frees.flatten.length + s'.pt.length + (s'.leaked - s.leaked) =
+      s.pool.frees.flatten.length + s.pt.length ∧
+    s.leaked ≤ s'.leaked ∧
+    (op.noRehome = true → s'.leaked = s.leaked) ∧
+    (op.keepsPages = false → s'.leaked = s.leaked + 1) :=
+  ⟨step_sub hW h, step_count hW h, step_leaked_le hW h, fun hn => step_leaked_noRehome hn h,
+   fun hk => step_leaked_mig_apg hk h⟩
 
 example : ∀ r s', step (initState 4096 16384 [32768, 32768]) .init = .ok (r, s') →
-    s'.pool.frees.flatten.length + s'.pt.length + 0 = 20 + 0 :=
-  fun _ _ h => (conservation_step (init_all example_cfg).1 h).2
+    s'.pool.frees.flatten.length + s'.pt.length + (s'.leaked - 0) = 20 + 0 :=
+  fun _ _ h => (conservation_step (init_all example_cfg).1 h).2.1
+
+/-- **Remap / Distribute give back what they replace.** From a state in which the allocator's records agree with
+the page table (`MirrorOK`: what every history of a single process keeps, `inv_run`), every successful operation
+other than preparePageForMigration / AllocatePageWithGivenVAddr leaves the ghost field alone: together with
+`conservation_step` (b), free pages + mapped pages is unchanged — each page Remap / Distribute replace in a
+page-table entry is back on the free list of its device. -/
+theorem remap_gives_back_step {s s' : State} {op : Op} {r : Res} (hW : WInv s) (hM : MirrorOK s)
+    (hk : op.keepsPages = true) (h : step s op = .ok (r, s')) :
+    s'.leaked = s.leaked ∧
+    s'.pool.frees.flatten.length + s'.pt.length = s.pool.frees.flatten.length + s.pt.length := by
+  have e := step_noleak hM hk h
+  have c := step_count hW h
+  exact ⟨e, by omega⟩
 
 /-! ## every history -/
 
 /-- After **every** history (any number of processes, every operation of the driver API, `MigsOK` as in
-`pinv_run`) with ghost counter `k`: the free lists together with the mapped pages are duplicate-free, all
-of them are pages the devices were registered with, `|free| + |mapped| + k = |all pages|`, and exactly `k`
-pages are lost (neither free nor mapped): every virtual page re-homed by Remap / Distribute /
-AllocatePageWithGivenVAddr / preparePageForMigration costs the allocator one physical page for good. -/
-theorem conservation_run {ps cpu : Nat} {gpus : List Nat} {ops : List Op} {s' : State} {k : Nat}
+`pinv_run`): the free lists together with the mapped pages are duplicate-free, all of them are pages the
+devices were registered with, `|free| + |mapped| + leaked = |all pages|`, and exactly `leaked` pages are lost
+(neither free nor mapped): every page replaced by AllocatePageWithGivenVAddr / preparePageForMigration — or by a
+Remap / Distribute whose virtual address the allocator records for another process — and nothing else. -/
+theorem conservation_run {ps cpu : Nat} {gpus : List Nat} {ops : List Op} {s' : State}
     (h : Cfg ps cpu gpus) (hm : MigsOK gpus.length ops)
-    (hr : runR (initState ps cpu gpus) 0 ops = .ok (s', k)) :
+    (hr : run (initState ps cpu gpus) ops = .ok s') :
     (s'.pool.frees.flatten ++ livePages s').Nodup ∧
     (∀ p ∈ s'.pool.frees.flatten ++ livePages s', p ∈ allPages ps cpu gpus) ∧
-    s'.pool.frees.flatten.length + s'.pt.length + k = (allPages ps cpu gpus).length ∧
-    (lostPages (allPages ps cpu gpus) s').length = k := by
-  obtain ⟨hW, hG, _⟩ := init_all h
-  obtain ⟨j, e, c, hW', _⟩ := runR_cons ops _ 0 s' k hW hG hm hr
-  have : k = j := by omega
-  subst this
+    s'.pool.frees.flatten.length + s'.pt.length + s'.leaked = (allPages ps cpu gpus).length ∧
+    (lostPages (allPages ps cpu gpus) s').length = s'.leaked := by
+  obtain ⟨c, hW'⟩ := run_from_init h hm hr
   exact cons_from_init h c hW'.phys
 
-example : ∀ s' k, runR (initState 4096 16384 [32768, 32768]) 0 exampleOps = .ok (s', k) →
-    s'.pool.frees.flatten.length + s'.pt.length + k = (allPages 4096 16384 [32768, 32768]).length ∧
-    (lostPages (allPages 4096 16384 [32768, 32768]) s').length = k :=
-  fun _ _ hr => (conservation_run example_cfg example_valid.1 hr).2.2
+example : ∀ s', run (initState 4096 16384 [32768, 32768]) exampleOps = .ok s' →
+    s'.pool.frees.flatten.length + s'.pt.length + s'.leaked = (allPages 4096 16384 [32768, 32768]).length ∧
+    (lostPages (allPages 4096 16384 [32768, 32768]) s').length = s'.leaked :=
+  fun _ hr => (conservation_run example_cfg example_valid.1 hr).2.2
 
-/-- the example history runs, and re-homes six virtual pages (Remap 2, Distribute 2, migration 1,
-AllocatePageWithGivenVAddr 1): six of the 20 physical pages are lost at its end -/
-example : (match runR (initState 4096 16384 [32768, 32768]) 0 exampleOps with
-     | .ok (s, k) => k == 6 && (lostPages (allPages 4096 16384 [32768, 32768]) s).length == 6 &&
-                     s.pool.frees.flatten.length + s.pt.length == 14
+/-- the example history runs; its Remap (2 pages) and Distribute (2 pages) give back what they replace, its
+migration and its AllocatePageWithGivenVAddr keep one page each: two of the 20 physical pages are neither free nor
+mapped at its end -/
+example : (match run (initState 4096 16384 [32768, 32768]) exampleOps with
+     | .ok s => s.leaked == 2 && lostPages (allPages 4096 16384 [32768, 32768]) s == [0x7000, 0x8000] &&
+                s.pool.frees.flatten.length + s.pt.length == 18
      | .error _ => false) = true := by decide
 
-/-- After every history **without re-homing operations** — any number of processes, Init / SelectGPU /
-CreateUnifiedGPU / Allocate / AllocateUnified / Free / RemovePage / removeFreedBuffers in any order,
-cross-process `Free` included; no further hypothesis on the history — the free lists and the mapped pages **partition** the physical pages of
-the devices: nothing is lost, nothing is duplicated. -/
+/-- After every history **without operations that overwrite a page-table entry** — any number of processes,
+Init / SelectGPU / CreateUnifiedGPU / Allocate / AllocateUnified / Free / RemovePage / removeFreedBuffers in any
+order, cross-process `Free` included; no further hypothesis on the history — the free lists and the mapped pages
+**partition** the physical pages of the devices: nothing is lost, nothing is duplicated. -/
 theorem conservation_exact {ps cpu : Nat} {gpus : List Nat} {ops : List Op} {s' : State}
     (h : Cfg ps cpu gpus) (hn : ops.all Op.noRehome = true)
     (hr : run (initState ps cpu gpus) ops = .ok s') :
     (s'.pool.frees.flatten ++ livePages s').Perm (allPages ps cpu gpus) ∧
     lostPages (allPages ps cpu gpus) s' = [] := by
   have hm : MigsOK gpus.length ops := fun op ho => migOK_of_noRehome (List.all_eq_true.mp hn op ho)
-  obtain ⟨k, hk⟩ := run_runR ops _ 0 s' hr
-  have hk0 : k = 0 := runR_noRehome ops _ 0 s' k hn hk
-  subst hk0
-  obtain ⟨hnd, hsub, hcount, _⟩ := conservation_run h hm hk
+  have hk0 : s'.leaked = 0 := (run_leaked_noRehome ops _ s' hn hr).trans (initState_leaked ps cpu gpus)
+  obtain ⟨hnd, hsub, hcount, _⟩ := conservation_run h hm hr
   have hall : (allPages ps cpu gpus).Nodup := (init_all h).1.phys.freeNodup
   have hlen : (s'.pool.frees.flatten ++ livePages s').length = (allPages ps cpu gpus).length := by
     rw [List.length_append]
@@ -125,6 +137,106 @@ example : ∀ s', run (initState 4096 4096 [16384]) noRehomeOps = .ok s' →
   refine conservation_exact (gpus := [16384]) ⟨by decide, ⟨1, rfl⟩, ?_⟩ (by decide) hr
   intro g hg; simp at hg; subst hg; exact ⟨4, rfl⟩
 
+/-! ## the partition statement for the repaired Remap / Distribute -/
+
+/-- "After every history of a single process that uses every driver operation except migration and
+AllocatePageWithGivenVAddr — Remap and Distribute included, any device configuration — the free lists and the
+mapped pages partition the physical pages of the devices, and no page is lost." -/
+def conservation_full : Prop :=
+  ∀ (ps cpu : Nat) (gpus : List Nat) (ops : List Op) (s' : State),
+    Cfg ps cpu gpus → SingleProc ops → ops.all Op.keepsPages = true →
+    run (initState ps cpu gpus) ops = .ok s' →
+    (s'.pool.frees.flatten ++ livePages s').Perm (allPages ps cpu gpus) ∧
+    lostPages (allPages ps cpu gpus) s' = []
+
+/-- The statement holds of the repaired code: in a history of a single process the allocator's record of a
+virtual address always belongs to the caller, so every iteration of Remap's loop returns the page it replaces;
+`leaked` stays 0 and `conservation_run` leaves no room for a lost page. -/
+theorem conservation_full_holds : conservation_full := by
+  intro ps cpu gpus ops s' h hs hk hr
+  have hm : MigsOK gpus.length ops := fun op ho => migOK_of_keepsPages (List.all_eq_true.mp hk op ho)
+  obtain ⟨hW, hG, hO, hM, _, _, hn, _⟩ := init_all h
+  have hb : (initState ps cpu gpus).npid + inits ops ≤ 1 := by
+    unfold SingleProc at hs; rw [hn]; omega
+  have hk0 : s'.leaked = 0 :=
+    (run_noleak ops _ s' hW hG hO hM hb hk hr).trans (initState_leaked ps cpu gpus)
+  obtain ⟨hnd, hsub, hcount, _⟩ := conservation_run h hm hr
+  have hall : (allPages ps cpu gpus).Nodup := hW.phys.freeNodup
+  have hlen : (s'.pool.frees.flatten ++ livePages s').length = (allPages ps cpu gpus).length := by
+    rw [List.length_append]
+    simp only [livePages, List.length_map]
+    omega
+  obtain ⟨a, b⟩ := perm_of_nodup_subset_length hall hnd hsub hlen
+  exact ⟨a, by rw [lostPages_eq]; exact b⟩
+
+/-- a single-process history with Remap and Distribute (the prefix of `exampleOps` before its migration) -/
+example : ∀ s', run (initState 4096 16384 [32768, 32768]) (exampleOps.take 7) = .ok s' →
+    (s'.pool.frees.flatten ++ livePages s').Perm (allPages 4096 16384 [32768, 32768]) ∧
+    lostPages (allPages 4096 16384 [32768, 32768]) s' = [] :=
+  fun s' hr => conservation_full_holds 4096 16384 [32768, 32768] _ s' example_cfg (by unfold SingleProc; decide)
+    (by decide) hr
+
+example : (match run (initState 4096 16384 [32768, 32768]) (exampleOps.take 7) with
+     | .ok s => s.pt.length == 3 && s.pool.frees.flatten.length == 17 && s.leaked == 0
+     | .error _ => false) = true := by decide
+
+/-- the same statement about the code **before** the repair (`runOld`: the loop of
+allocateMultiplePagesWithGivenVAddrs overwrote the entry and never gave the replaced page back) -/
+def conservation_full_before_fix : Prop :=
+  ∀ (ps cpu : Nat) (gpus : List Nat) (ops : List Op) (s' : State),
+    Cfg ps cpu gpus → SingleProc ops → ops.all Op.keepsPages = true →
+    runOld (initState ps cpu gpus) ops = .ok s' →
+    (s'.pool.frees.flatten ++ livePages s').Perm (allPages ps cpu gpus) ∧
+    lostPages (allPages ps cpu gpus) s' = []
+
+/-- witness: Init, Allocate 100 bytes (virtual 0x1000 ↦ physical 0x2000 on GPU 1), Remap 0x1000 onto GPU 1
+(now ↦ 0x3000): before the repair physical page 0x2000 was neither free nor mapped. -/
+theorem conservation_full_before_fix_refuted : ¬ conservation_full_before_fix := by
+  intro h
+  have := (h 4096 4096 [8192] [.init, .alloc 0 100, .remap 0 4096 4096 1] _ cfg_small
+    (by unfold SingleProc; decide) (by decide) rfl).2
+  revert this
+  decide
+
+example : (match runOld (initState 4096 4096 [8192]) [.init, .alloc 0 100, .remap 0 4096 4096 1] with
+     | .ok s => lostPages (allPages 4096 4096 [8192]) s == [0x2000] && s.leaked == 1
+     | .error _ => false) = true := by decide
+
+/-- the same history on the repaired code: 0x2000 is back on the free list of GPU 1 -/
+example : (match run (initState 4096 4096 [8192]) [.init, .alloc 0 100, .remap 0 4096 4096 1] with
+     | .ok s => lostPages (allPages 4096 4096 [8192]) s == [] && s.pool.frees == [[0x1000], [0x2000]] &&
+                livePages s == [0x3000] && s.leaked == 0
+     | .error _ => false) = true := by decide
+
+/-! ## the two hypotheses of `conservation_full` are necessary -/
+
+/-- **Single process.** Two processes allocate (both get virtual 0x1000: process 1 ↦ 0x2000, process 2 ↦ 0x3000;
+the allocator's record of 0x1000 — keyed by the virtual address only — now belongs to process 2), then process 1
+remaps its page (↦ 0x4000): the record of 0x1000 is not the caller's, so nothing is released and physical page
+0x2000 is lost, although no operation of the history is a migration / AllocatePageWithGivenVAddr. (The open
+finding "mirror keyed by the virtual address only", not the repaired leak.) -/
+theorem conservation_needs_single_process :
+    ∃ s, run (initState 4096 4096 [16384]) [.init, .init, .alloc 0 100, .alloc 1 100, .remap 0 4096 4096 1] = .ok s ∧
+      ([Op.init, .init, .alloc 0 100, .alloc 1 100, .remap 0 4096 4096 1].all Op.keepsPages = true) ∧
+      ¬ SingleProc [.init, .init, .alloc 0 100, .alloc 1 100, .remap 0 4096 4096 1] ∧
+      livePages s = [0x4000, 0x3000] ∧ s.pool.frees = [[0x1000], [0x5000]] ∧
+      lostPages (allPages 4096 4096 [16384]) s = [0x2000] ∧ s.leaked = 1 :=
+  ⟨_, rfl, by decide, by unfold SingleProc; decide, by decide, by decide, by decide, by decide⟩
+
+/-- **No migration / AllocatePageWithGivenVAddr.** These two operations keep the page they replace on purpose (the
+page migration controller still copies from it; nothing in the driver gives it back afterwards): a single process
+allocates one page (0x1000 ↦ 0x2000) and calls AllocatePageWithGivenVAddr, resp. preparePageForMigration, for it
+(↦ 0x3000): physical page 0x2000 is neither free nor mapped. -/
+theorem conservation_migration_keeps_replaced_page :
+    (∃ s, run (initState 4096 4096 [8192]) [.init, .alloc 0 100, .apg 0 1 4096 false] = .ok s ∧
+      SingleProc [.init, .alloc 0 100, .apg 0 1 4096 false] ∧
+      livePages s = [0x3000] ∧ lostPages (allPages 4096 4096 [8192]) s = [0x2000] ∧ s.leaked = 1) ∧
+    (∃ s, run (initState 4096 4096 [8192]) [.init, .alloc 0 100, .mig 0 4096 0] = .ok s ∧
+      SingleProc [.init, .alloc 0 100, .mig 0 4096 0] ∧
+      livePages s = [0x3000] ∧ lostPages (allPages 4096 4096 [8192]) s = [0x2000] ∧ s.leaked = 1) :=
+  ⟨⟨_, rfl, by unfold SingleProc; decide, by decide, by decide, by decide⟩,
+   ⟨_, rfl, by unfold SingleProc; decide, by decide, by decide, by decide⟩⟩
+
 /-! ## a lost page never comes back -/
 
 /-- No driver operation puts a lost page back into circulation: a page of `all` that is neither free nor
@@ -142,77 +254,65 @@ theorem lost_monotone {s s' : State} {op : Op} {r : Res} (all : List Nat) (hW : 
     · exact h3 x
 
 /-- Run level: a page lost after a prefix `ops₁` of a history is still lost after any continuation `ops₂`
-— no sequence of Free / RemovePage / Allocate / … recovers it. -/
+— no sequence of Free / RemovePage / Allocate / Remap / … recovers it. -/
 theorem lost_monotone_run {ps cpu : Nat} {gpus : List Nat} {ops₁ ops₂ : List Op} {s₁ s₂ : State}
     (all : List Nat) (h : Cfg ps cpu gpus) (hm₁ : MigsOK gpus.length ops₁) (hm₂ : MigsOK gpus.length ops₂)
     (h₁ : run (initState ps cpu gpus) ops₁ = .ok s₁) (h₂ : run s₁ ops₂ = .ok s₂) :
     ∀ p ∈ lostPages all s₁, p ∈ lostPages all s₂ := by
   obtain ⟨hW, hG, _⟩ := init_all h
   obtain ⟨hW₁, hG₁⟩ := run_w ops₁ _ s₁ hW hG hm₁ h₁
-  obtain ⟨k, hk⟩ := run_runR ops₂ s₁ 0 s₂ h₂
-  obtain ⟨j, _, c, _, _⟩ := runR_cons ops₂ s₁ 0 s₂ k hW₁ hG₁ hm₂ hk
+  obtain ⟨c, _, _⟩ := run_cons ops₂ s₁ s₂ hW₁ hG₁ hm₂ h₂
   intro p hp
   obtain ⟨a1, a2, a3⟩ := mem_lostPages.mp hp
   refine mem_lostPages.mpr ⟨a1, fun hf => ?_, fun hl => ?_⟩
-  · rcases c.sub p (Or.inl hf) with x | x
+  · rcases c.cons.sub p (Or.inl hf) with x | x
     · exact a2 x
     · exact a3 x
-  · rcases c.sub p (Or.inr hl) with x | x
+  · rcases c.cons.sub p (Or.inr hl) with x | x
     · exact a2 x
     · exact a3 x
 
-/-- the page lost by the Remap of `exampleOps`' prefix is still lost at the end of `exampleOps` -/
-example : ∀ s₁ s₂, run (initState 4096 16384 [32768, 32768]) (exampleOps.take 6) = .ok s₁ →
-    run s₁ (exampleOps.drop 6) = .ok s₂ →
+/-- the page kept by the migration of `exampleOps`' prefix is still lost at the end of `exampleOps` -/
+example : ∀ s₁ s₂, run (initState 4096 16384 [32768, 32768]) (exampleOps.take 8) = .ok s₁ →
+    run s₁ (exampleOps.drop 8) = .ok s₂ →
     ∀ p ∈ lostPages (allPages 4096 16384 [32768, 32768]) s₁, p ∈ lostPages (allPages 4096 16384 [32768, 32768]) s₂ := by
   intro s₁ s₂ h₁ h₂
   have hm := example_valid.1
   exact lost_monotone_run _ example_cfg (fun op ho => hm op (List.mem_of_mem_take ho))
     (fun op ho => hm op (List.mem_of_mem_drop ho)) h₁ h₂
 
-example : (match run (initState 4096 16384 [32768, 32768]) (exampleOps.take 6) with
-     | .ok s => (lostPages (allPages 4096 16384 [32768, 32768]) s).length == 2
+example : (match run (initState 4096 16384 [32768, 32768]) (exampleOps.take 8) with
+     | .ok s => lostPages (allPages 4096 16384 [32768, 32768]) s == [0x8000]
      | .error _ => false) = true := by decide
 
-/-! ## the unrestricted partition statement is false -/
+/-! ## the leak exhausted a device; the repaired Remap does not -/
 
-/-- "After every history the free lists and the mapped pages partition the physical pages" — false of the
-code: Remap (and Distribute, AllocatePageWithGivenVAddr, preparePageForMigration) overwrites the
-page-table entry of a mapped virtual page without returning the page it was mapped to. -/
-def conservation_full : Prop :=
-  ∀ (ops : List Op) (s' : State), run (initState 4096 4096 [8192]) ops = .ok s' →
-    (s'.pool.frees.flatten ++ livePages s').Perm (allPages 4096 4096 [8192])
-
-/-- witness: Init, Allocate 100 bytes (virtual 0x1000 ↦ physical 0x2000 on GPU 1), Remap 0x1000 onto GPU 1
-(now ↦ 0x3000): physical page 0x2000 is neither free nor mapped. -/
-theorem conservation_full_refuted : ¬ conservation_full := by
-  intro h
-  have := (h [.init, .alloc 0 100, .remap 0 4096 4096 1] _ rfl).length_eq
-  revert this
-  decide
-
-example : (match run (initState 4096 4096 [8192]) [.init, .alloc 0 100, .remap 0 4096 4096 1] with
-     | .ok s => lostPages (allPages 4096 4096 [8192]) s == [0x2000]
-     | .error _ => false) = true := by decide
-
-/-! ## the leak exhausts a device -/
-
-/-- A capacity leak of the allocator, on a GPU with two pages: Init, Allocate one page, Remap it onto the
-same GPU — one page is mapped, the GPU's free list is empty and page 0x2000 is lost; the next Remap of
-the same single page (and likewise a fresh one-page Allocate) fails with out-of-memory although only one
-of the GPU's two pages is in use. -/
-theorem remap_leak_oom_witness :
-    (∃ s, run (initState 4096 4096 [8192]) [.init, .alloc 0 4096] = .ok s ∧ s.pt.length = 1 ∧
+/-- The capacity leak of the allocator **before the repair** (`runOld` / `stepOld`), on a GPU with two pages: Init,
+Allocate one page, Remap it onto the same GPU — one page is mapped, the GPU's free list is empty and page 0x2000 is
+lost; the next Remap of the same single page (and likewise a fresh one-page Allocate) fails with out-of-memory
+although only one of the GPU's two pages is in use. -/
+theorem remap_leak_oom_before_fix_witness :
+    (∃ s, runOld (initState 4096 4096 [8192]) [.init, .alloc 0 4096] = .ok s ∧ s.pt.length = 1 ∧
         s.pool.frees = [[0x1000], [0x3000]]) ∧
-    (∃ s, run (initState 4096 4096 [8192]) [.init, .alloc 0 4096, .remap 0 4096 4096 1] = .ok s ∧
+    (∃ s, runOld (initState 4096 4096 [8192]) [.init, .alloc 0 4096, .remap 0 4096 4096 1] = .ok s ∧
         s.pt.length = 1 ∧ s.pool.frees = [[0x1000], []] ∧
         lostPages (allPages 4096 4096 [8192]) s = [0x2000] ∧
-        (match step s (.remap 0 4096 4096 1) with | .error .oom => true | _ => false) = true ∧
-        (match step s (.alloc 0 4096) with | .error .oom => true | _ => false) = true) ∧
-    (match run (initState 4096 4096 [8192]) [.init, .alloc 0 4096, .remap 0 4096 4096 1, .remap 0 4096 4096 1] with
+        (match stepOld s (.remap 0 4096 4096 1) with | .error .oom => true | _ => false) = true ∧
+        (match stepOld s (.alloc 0 4096) with | .error .oom => true | _ => false) = true) ∧
+    (match runOld (initState 4096 4096 [8192]) [.init, .alloc 0 4096, .remap 0 4096 4096 1, .remap 0 4096 4096 1] with
      | .error .oom => true
      | _ => false) = true :=
   ⟨⟨_, rfl, by decide, by decide⟩, ⟨_, rfl, by decide, by decide, by decide, by decide, by decide⟩, by decide⟩
+
+/-- The same history on the repaired code: the one-page buffer is remapped twice onto its own two-page GPU; each
+Remap takes the GPU's free page and gives the replaced one back: one page mapped, one page free on the GPU,
+nothing lost — and a further one-page Allocate succeeds. -/
+theorem remap_twice_ok :
+    ∃ s, run (initState 4096 4096 [8192]) [.init, .alloc 0 4096, .remap 0 4096 4096 1, .remap 0 4096 4096 1] = .ok s ∧
+      s.pt.length = 1 ∧ livePages s = [0x2000] ∧ s.pool.frees = [[0x1000], [0x3000]] ∧
+      lostPages (allPages 4096 4096 [8192]) s = [] ∧ s.leaked = 0 ∧
+      (match step s (.alloc 0 4096) with | .ok _ => true | .error _ => false) = true :=
+  ⟨_, rfl, by decide, by decide, by decide, by decide, by decide, by decide⟩
 
 /-! ## what `Distribute` reports -/
 
